@@ -493,6 +493,11 @@ int HSolver::AnalyzeProblem(CBigLinProb &L)
 		for(i=0;i<NumNodes;i++) Vo[i]=L.V[i];
 		L.Wipe();
 
+		// couplings between floating conductors (CircType==0) and nodes with a prescribed value:
+		// the element-level elimination below removes them from the matrix, so they are kept
+		// here and put back when the conductor equations are finished
+		std::vector<double> condK(NumCircProps,0.),condB(NumCircProps,0.);
+
 		// do some book-keeping related to fixed boundary conditions;
 		// The P vector denotes which nodes have an assigned value
 		// The V vector denotes the assigned value
@@ -729,6 +734,12 @@ int HSolver::AnalyzeProblem(CBigLinProb &L)
 					for(k=0;k<3;k++)
 					{
 						if(j!=k){
+							if(meshnode[n[k]].InConductor>=0)
+								if(circproplist[meshnode[n[k]].InConductor].CircType==0)
+								{
+									condK[meshnode[n[k]].InConductor]-=Me[k][j];
+									condB[meshnode[n[k]].InConductor]+=Me[k][j]*L.V[n[j]];
+								}
 							be[k]-=Me[k][j]*L.V[n[j]];
 							Me[k][j]=0;
 							Me[j][k]=0;
@@ -796,10 +807,10 @@ int HSolver::AnalyzeProblem(CBigLinProb &L)
 
 			if(circproplist[i].CircType==0)
 			{
-				for(j=0,K=0;j<L.n;j++) if(j!=k) K+=L.Get(k,j);
+				for(j=0,K=condK[i];j<L.n;j++) if(j!=k) K+=L.Get(k,j);
 				if(K!=0){
 					L.Put(-K,k,k);
-					L.b[k]=circproplist[i].q;
+					L.b[k]=circproplist[i].q+condB[i];
 				}
 				else L.Put(L.Get(0,0),k,k);
 
